@@ -128,6 +128,8 @@ def explore(desc, tier, scratch=None, max_violations=3):
                                                     _fault_spec(events, k, exc, when), oc2, history))
             # ---- chained faults: a second failure while the first is being handled ------
             nchain = {'quick': 2, 'thorough': 12}.get(tier, 2)
+            if tier == 'quick' and world.w['plots'] != 'stub':
+                nchain = 1
             for (kA, excA, oc2) in _pick_chain_heads(tr['injected'], events, win, inv, nchain):
                 world.restore_rw()
                 fA = inject.Fault(kA, excA, tuple(identity(events[kA])))
@@ -445,7 +447,7 @@ def _renumber_par(c):
 
 # ---------------------------------------------------------------------------
 TIERS = {
-    'quick': {'runs': 80, 'deadline': 120.0, 'min_runs': 24},
+    'quick': {'runs': 72, 'deadline': 110.0, 'min_runs': 24},
     'thorough': {'runs': 640, 'deadline': 2700.0, 'min_runs': 100},
 }
 
